@@ -24,6 +24,7 @@ ASSUMPTIONS = [
     'events within 1 ms of a deadline: either neighbouring outcome accepted (tie order unspecified)',
     'legacy front-end awaits the validator after the lifetime wait by design: verdict or timeout both accepted when it ends after the deadline',
     'Data delivered after shutdown while its validator was still running: verdict outcome or cancellation both accepted',
+    'the application starts awaiting the result before the deadline (the library documents leniency for a first await after it)',
 ]
 
 LIFETIMES = [5, 50, 4000]
@@ -46,7 +47,8 @@ def _history():
         'digest': st.sampled_from(['none', 'none', 'none', 'right', 'wrong']),
         'life': st.sampled_from(LIFETIMES),
         'vlat': st.sampled_from(['0', '0', '1ms', 'life-1', 'life', 'life+20']),
-        'verdict': st.sampled_from([True, True, False])})
+        'verdict': st.sampled_from([True, True, False]),
+        'await_after': st.sampled_from([0, 0, 0, 2, 30]), 'shared_param': st.sampled_from([False, False, True])})
     data = st.one_of(
         st.fixed_dictionaries({'op': st.just('data'), 'name': nm, 'mode': st.sampled_from(['await', 'task', 'lp'])}),
         st.fixed_dictionaries({'op': st.just('data'), 'of': st.integers(0, 7), 'ext': st.lists(st.sampled_from(ALPHA[:2]), max_size=1),
@@ -194,7 +196,11 @@ def _run(sim, fe, ops, r):
                 # Interest with empty name cannot be expressed (final_name[-1]); outside the property's domain
                 continue
             h = sim.express(comps, lifetime=op['life'], can_be_prefix=op['cbp'], vlat=vlat_seconds(op['vlat'], op['life']),
-                            verdict=_verdict(fe, op['verdict']))
+                            verdict=_verdict(fe, op['verdict']),
+                            # awaited later, but while the Interest is still alive (a first await after the deadline is
+                            # deliberately lenient in the library: "should not be considered as an error")
+                            await_after=(op.get('await_after', 0) if op.get('await_after', 0) < op['life'] - 2 else 0) / 1000,
+                            shared_param=op.get('shared_param', False))
             if h.express_error is not None:
                 r.bad(f'C03/{fe}/express-raised/{type(h.express_error).__name__}', repr(h.express_error))
                 return
@@ -247,7 +253,7 @@ def _run(sim, fe, ops, r):
             if not ents:
                 continue
             e = ents[0 if op['i'] == 99 else op['i'] % len(ents)]
-            if e['h'].done_count == 0 and 'cancel_at' not in e:
+            if e['h'].done_count == 0 and 'cancel_at' not in e and e['h'].awaiting:
                 e['cancel_at'] = sim.vl.now_ms()
                 events.append((sim.vl.now_ms(), 'cancel', ents.index(e)))
                 sim.cancel(e['h'])
